@@ -256,3 +256,131 @@ def countSeries (es : List Entry) : Nat := (canonSeries es).length
 def countChunks (es : List Entry) : Nat := ((canonSeries es).map (fun e => e.2.length)).sum
 
 end Thanos.StoreSpec
+
+/-! ### the proxy in front of several stores (C07): `pkg/store/proxy.go` ProxyStore.Series / LabelNames /
+    LabelValues without selector labels and with the default TSDB selector (no extra matchers are added) -/
+
+namespace Thanos.StoreSpec
+open Thanos.Labels
+
+/-- a store behind the proxy: what it advertises (label sets, time range) and what it serves -/
+structure Client where
+  /-- `true`: a TSDBStore over the first block; `false`: a BucketStore over all blocks -/
+  tsdb : Bool
+  blocks : List Block
+  lsets : List Labels
+  mint : Int
+  maxt : Int
+  deriving Repr
+
+/-- `LabelSetsMatch`: some advertised label set is not contradicted by the matchers (a store without label
+    sets always matches) -/
+def labelSetsMatch (ms : List Matcher) (lsets : List Labels) : Bool :=
+  lsets.isEmpty || lsets.any (fun ls => ms.all (fun m => !(hasName ls m.name) || m.ok (get ls m.name)))
+
+/-- `storeMatches`: time ranges overlap and the label sets match -/
+def clientMatches (c : Client) (r : Req) : Bool :=
+  !(decide (r.mint > c.maxt) || decide (r.maxt < c.mint)) && labelSetsMatch r.matchers c.lsets
+
+def clientSeries (c : Client) (r : Req) : Res (List Entry) :=
+  if c.tsdb then
+    match c.blocks with
+    | db :: _ => tsdbSeries db r
+    | [] => .ok []
+  else .ok (bucketSeries c.blocks r)
+
+def clientEntries (c : Client) (r : Req) : List Entry :=
+  match clientSeries c r with
+  | .ok es => es
+  | .invalid => []
+
+def clientFails (c : Client) (r : Req) : Bool :=
+  match clientSeries c r with
+  | .ok _ => false
+  | .invalid => true
+
+def clientNames (c : Client) (r : Req) : List Nat :=
+  if c.tsdb then
+    match c.blocks with
+    | db :: _ => tsdbLabelNames db r
+    | [] => []
+  else bucketLabelNames c.blocks r
+
+def clientValues (c : Client) (r : Req) (l : Nat) : List Nat :=
+  if c.tsdb then
+    match c.blocks with
+    | db :: _ => tsdbLabelValues db r l
+    | [] => []
+  else bucketLabelValues c.blocks r l
+
+inductive PRes where
+  | ok (es : List Entry)
+  | invalid
+  | aborted
+  deriving Repr
+
+/-- `ProxyStore.Series` (partial response strategy ABORT): refuses a request without matchers, asks the matching
+    stores, fails when one of them fails, merges the rest -/
+def proxySeries (clients : List Client) (r : Req) : PRes :=
+  if r.matchers.isEmpty then .invalid else
+  let cs := clients.filter (clientMatches · r)
+  if cs.any (clientFails · r) then .aborted else .ok (cs.flatMap (clientEntries · r))
+
+/-- `strutil.mergeTwoStringSlices` (no limit): merge of two sorted lists; equal heads are emitted once, repeats
+    inside one list stay -/
+def mergeTwo : List Nat → List Nat → List Nat
+  | [], ys => ys
+  | x :: xs, ys => aux x xs (mergeTwo xs) ys
+where
+  aux (x : Nat) (xs : List Nat) (rec : List Nat → List Nat) : List Nat → List Nat
+    | [] => x :: xs
+    | y :: ys =>
+      if x < y then x :: rec (y :: ys)
+      else if y < x then y :: aux x xs rec ys
+      else x :: rec ys
+
+/-- `strutil.MergeSlices` (no limit): split in halves, merge the merged halves; `fuel` ≥ number of lists -/
+def mergeSlices : Nat → List (List Nat) → List Nat
+  | _, [] => []
+  | _, [a] => a
+  | 0, _ => []
+  | fuel + 1, as =>
+    let l := as.length / 2
+    mergeTwo (mergeSlices fuel (as.take l)) (mergeSlices fuel (as.drop l))
+
+/-- the answer of one store as it arrives at the proxy (sorted; the TSDB store may repeat a name) -/
+def clientNamesAnswer (c : Client) (r : Req) : List Nat :=
+  if c.tsdb then sortNatsDup (clientNames c r) else canonNats (clientNames c r)
+
+def clientValuesAnswer (c : Client) (r : Req) (l : Nat) : List Nat := canonNats (clientValues c r l)
+
+/-- `ProxyStore.LabelNames`: `MergeUnsortedSlices` of the answers of the matching stores -/
+def proxyLabelNames (clients : List Client) (r : Req) : List Nat :=
+  let answers := (clients.filter (clientMatches · r)).map (clientNamesAnswer · r)
+  mergeSlices answers.length answers
+
+def proxyLabelValues (clients : List Client) (r : Req) (l : Nat) : List Nat :=
+  let answers := (clients.filter (clientMatches · r)).map (clientValuesAnswer · r l)
+  mergeSlices answers.length answers
+
+def minOf : List Int → Int → Int
+  | [], d => d
+  | x :: xs, d => minOf xs (if x < d then x else d)
+
+def maxOf : List Int → Int → Int
+  | [], d => d
+  | x :: xs, d => maxOf xs (if x > d then x else d)
+
+def distinctLabels : List Labels → List Labels
+  | [] => []
+  | l :: ls => l :: (distinctLabels ls).filter (· != l)
+
+/-- the composition the harness builds: the TSDB store of the first block and the store gateway of all blocks -/
+def standardClients (blocks : List Block) : List Client :=
+  match blocks with
+  | [] => []
+  | b :: _ =>
+    [⟨true, blocks, [b.ext], b.mint, b.maxt⟩,
+     ⟨false, blocks, distinctLabels (blocks.map (·.ext)), minOf (blocks.map (·.mint)) b.mint, maxOf (blocks.map (·.maxt)) b.maxt⟩]
+
+end Thanos.StoreSpec
